@@ -82,5 +82,7 @@ let () = iter_lines (fun line ->
   try
     let ops = List.map op_of (split_ws line) in
     let (_, outs) = run init_state ops in
-    String.concat " " (List.map out_str outs)
+    (* the executable property statements of Spec/NegSpec.v evaluated on this run of the model *)
+    let chk = String.concat "" (List.map (fun x -> if x then "1" else "0") (check_all_init ops)) in
+    String.concat " " (List.map out_str outs) ^ " CHK=" ^ chk
   with Failure m -> "MODELERR " ^ m)
